@@ -349,10 +349,24 @@ def run(ctx):
                     break
         if i % 3000 == 5:
             ctx.sample({"version": v, "events": mev[:10], "impl": [[en, st] for _, en, st in w.events][:6]})
+    # callbacks registered for an operation are its own: the registry never hands a live registration's id to another
+    # (model + theorems: BV.Registry / c06_registry_*; the same differential as in C06, here for the list operations)
+    from harness.props import c06 as _c06
+
+    rcs = _c06.registry_cases(ctx)
+    rres = [_c06.run_registry(ctx.rng.choice([4, 8, 14]), sc) for sc in rcs]
+    rmodel = ctx.driver(["c06 reg " + " ".join(ops) for ops, _, _ in rres])
+    for k, (sc, (ops, outs, bad)) in enumerate(zip(rcs, rres)):
+        ctx.cov["evaluations"] += 1
+        ctx.count("registry")
+        if bad:
+            ctx.violation("callback registry: " + bad, {"kind": "callback-registry"}, {"registry": [list(x) for x in sc]})
+        if rmodel is not None and "|".join(outs) != rmodel[k]:
+            ctx.corr_diff("callback registry trace differs", {"registry": [list(x) for x in sc][:30]}, "|".join(outs)[:400], rmodel[k][:400])
     ctx.cov["distinct_nontrivial"] = nontriv
     ctx.cov["rule"] = (f"formNetwork, leaveNetwork and _ensure_network_running: every event order of length 1..{ctx.n(3, 5)} over {{response ok / refused / not-joined / already-joined, matching and non-matching stack-status events, "
                        f"timeout, cancellation}}; startScan: every order of length 1..{ctx.n(4, 6)} over {{response, result callbacks (new and repeated values), completion ok/failed, cancellation}} with one result before the scan is issued; random scripts with up to four "
-                       "overlapping operations; handlers v4/v8/v14; non-trivial = a timeout, cancellation, refusal or more than one operation")
+                       "overlapping operations; handlers v4/v8/v14; the callback registry (add / remove / fan-out sequences with colliding ids, as in C06); non-trivial = a timeout, cancellation, refusal or more than one operation")
     ctx.exhaustive = True
 
 
@@ -365,6 +379,14 @@ def replay(ctx, obj):
     import bellows.zigbee.application as app_mod
 
     r = obj["replay"]
+    if "registry" in r:
+        from harness.props import c06 as _c06
+
+        ops, outs, bad = _c06.run_registry(4, [tuple(x) for x in r["registry"]])
+        print(f"replay registry {r['registry']}: {'FAILS: ' + bad if bad else 'ok'}")
+        if bad:
+            print(f"VIOLATION property={ctx.pid} replay=replay")
+        return 1 if bad else 0
     w, mev = run_script(r["version"], r["events"])
     bad = oracle(w, mev, {"form": ezsp_mod.NETWORK_OPS_TIMEOUT, "leave": ezsp_mod.NETWORK_OPS_TIMEOUT, "up": app_mod.NETWORK_UP_TIMEOUT_S})
     print(f"replay v{r['version']} {r['events']}: {'FAILS: ' + bad if bad else 'ok'}")
